@@ -389,6 +389,14 @@ def corpus_parse(tier, seed, focus='C01', nm=None):
     # 18 flags on variants where they must not matter: case-insensitive default, default_with on a disabled variant, repeated spellings; where-clause generics
     A([V('Fallback', 'tuple', ['Cap'], default=True, aci=True, ser=['never-a-spelling']), V('DwGone', 'tuple', ['u8'], disabled=True, dw='dw_u8', ser=['dwgone']),
        V('Dup', ser=['dup', 'dup'], ts='dup'), V('Gen', 'named', ['T', 'u8'], names=['t', 'n'], fdw={'n': 'dw_u8'}, aci=True)], where_clause='where T: Clone')
+    # 19 every variant case-insensitive through the enum-level flag, custom error: the error function must see the input unchanged
+    A([V('Red'), V('DarkGreen', ser=['dg', 'Dark-Green']), V('Blue', 'tuple', ['u8'])], aci=True, parse_err_ty='PErr', parse_err_fn='perr', serialize_all='kebab-case')
+    # 20 one case-insensitive variant with two spellings that differ only in the case of a non-ASCII letter (distinct under ASCII folding)
+    A([V('Aerger', ser=['\u00c4rger'], ts='\u00e4rger', aci=True), V('Plain')])
+    # 21 overlapping spellings: a case-sensitive all-lowercase spelling declared before / after a case-insensitive variant that folds to it
+    #    (for the shared input the property does not say who wins; every other input is decided)
+    p = A([V('LowerFirst', ser=['mb']), V('Mega', ser=['MB'], aci=True), V('Kilo', ser=['KB'], aci=True), V('LowerLast', ser=['kb'])])
+    p.tags.append('overlap')
     if tier == 'quick':
         return out
     styles = [None, 'snake_case', 'SCREAMING_SNAKE_CASE', 'kebab-case', 'camelCase', 'PascalCase', 'lowercase', 'UPPERCASE', 'title_case', 'mixed_case', 'Train-Case', 'SCREAMING-KEBAB-CASE']
